@@ -359,26 +359,41 @@ def inline_body(helper, call, is_method, kind, target, caller_locals):
   elif tail_only and len(rets) == 1:
     out = prologue + body[:-1] + (finish(rets[0].value) if kind != 'return' else [ast.Return(value=rets[0].value, **loc)])
   else:
-    if _return_in_loop(fake):
-      return None
     rv = '__ret_%s' % helper.name.strip('_')
+    done = '__done_%s' % helper.name.strip('_')
+    in_loop = _return_in_loop(fake)
 
-    class R(ast.NodeTransformer):
-      def visit_Return(self, node):
-        stmts = []
-        if kind != 'expr':
-          stmts.append(ast.Assign(targets=[ast.Name(id=rv, ctx=ast.Store())], value=node.value or ast.Constant(value=None), lineno=node.lineno, col_offset=node.col_offset))
-        stmts.append(ast.Break(lineno=node.lineno, col_offset=node.col_offset))
-        return stmts
-
-      def visit_FunctionDef(self, node):
-        return node
-      visit_Lambda = visit_AsyncFunctionDef = visit_FunctionDef
-    nb = []
-    for st in body:
-      x = R().visit(st)
-      nb.extend(x if isinstance(x, list) else [x])
+    def rewrite(stmts, loop_depth):
+      out_ = []
+      for st in stmts:
+        if isinstance(st, ast.Return):
+          if kind != 'expr':
+            out_.append(ast.Assign(targets=[ast.Name(id=rv, ctx=ast.Store())], value=st.value or ast.Constant(value=None), lineno=st.lineno, col_offset=st.col_offset))
+          if loop_depth > 0:
+            out_.append(ast.Assign(targets=[ast.Name(id=done, ctx=ast.Store())], value=ast.Constant(value=True), lineno=st.lineno, col_offset=st.col_offset))
+          out_.append(ast.Break(lineno=st.lineno, col_offset=st.col_offset))
+          continue
+        if isinstance(st, (ast.FunctionDef, ast.AsyncFunctionDef, ast.ClassDef)):
+          out_.append(st)
+          continue
+        is_loop = isinstance(st, (ast.For, ast.While, ast.AsyncFor))
+        has_ret = any(isinstance(x, ast.Return) for x in ast.walk(st))
+        for fld in ('body', 'orelse', 'finalbody'):
+          sub = getattr(st, fld, None)
+          if isinstance(sub, list) and sub and isinstance(sub[0], ast.stmt):
+            setattr(st, fld, rewrite(sub, loop_depth + (1 if is_loop and fld == 'body' else 0)))
+        for h in getattr(st, 'handlers', []) or []:
+          h.body = rewrite(h.body, loop_depth)
+        out_.append(st)
+        if is_loop and has_ret:
+          # propagate the early return out of the enclosing loops
+          out_.append(ast.If(test=ast.Name(id=done, ctx=ast.Load()), body=[ast.Break(lineno=st.lineno, col_offset=st.col_offset)], orelse=[],
+                             lineno=st.lineno, col_offset=st.col_offset))
+      return out_
+    nb = rewrite(body, 0)
     init = [ast.Assign(targets=[ast.Name(id=rv, ctx=ast.Store())], value=ast.Constant(value=None), **loc)] if kind != 'expr' else []
+    if in_loop:
+      init.append(ast.Assign(targets=[ast.Name(id=done, ctx=ast.Store())], value=ast.Constant(value=False), **loc))
     loop = ast.While(test=ast.Constant(value=True), body=nb + [ast.Break(**loc)], orelse=[], **loc)
     out = prologue + init + [loop] + (finish(ast.Name(id=rv, ctx=ast.Load())) if kind != 'expr' else [])
   for st in out:
